@@ -663,11 +663,24 @@ def gen_mutation_case(rng):
     boundary = gen_boundary(rng)
     subtype = rng.choice(["mixed", "mixed", "form-data"])
     specs = gen_parts(rng, boundary, subtype, small=rng.random() < 0.7, ascii_only=True)
-    for sp in specs:
+    drop_epilogue = subtype != "form-data" and rng.random() < 0.2
+    if drop_epilogue:        # bodies whose nested close-delimiter is not followed by an epilogue line (`_read_boundary` fallback)
+        for _ in range(30):
+            if any(sp.nested and sp.nested[2] for sp in specs):
+                break
+            specs = gen_parts(rng, boundary, subtype, small=True, ascii_only=True)
+    def walk(sps):
+        for sp in sps:
+            if sp.nested:
+                yield from walk(sp.nested[2])
+            else:
+                yield sp
+    for sp in walk(specs):
         if sp.disp:       # ASCII-only header block: the byte-level header model is exact there
             sp.disp = (sp.disp[0], True, {k: "".join(c for c in v if 32 <= ord(c) < 127 and c not in ';"\\') or "n" for k, v in sp.disp[2].items()})
         sp.headers = [(k, v) for k, v in sp.headers if v.isascii()]
     return {"kind": "mut", "boundary": boundary, "subtype": subtype, "specs": specs_to_json(specs),
+            "drop_epilogue": drop_epilogue, "also_random": rng.random() < 0.5,
             "script": [list(a) for a in legal_sizes_for(gen_script(rng, boundary), specs, boundary)],
             "descend": rng.random() < 0.8, "prefed": rng.choice([0, 0, 1, 10 ** 6]), "eof_with_last": rng.random() < 0.5,
             "seg_style": rng.choice(["whole", "fixed", "random", "edges", "tiny"]), "seg_seed": rng.randrange(2 ** 32),
@@ -683,7 +696,11 @@ def one_mutation(ctx, loop, case, compare_lines):
         wire = write_all(loop, mw)
     except (AssertionError, RuntimeError, ValueError):
         return None
-    wire = mutate(random.Random(case["mut_seed"]), wire, case["boundary"])
+    if case.get("drop_epilogue"):
+        wire = wire.replace(b"--\r\n\r\n--", b"--\r\n--")
+        ctx.hit("mut:drop-epilogue")
+    if not case.get("drop_epilogue") or case.get("also_random"):
+        wire = mutate(random.Random(case["mut_seed"]), wire, case["boundary"])
     segs = segment(random.Random(case["seg_seed"]), wire, case["seg_style"])
     script = [tuple(a) if a[0] != "C" else ("C", list(a[1])) for a in case["script"]]
     kw = dict(script=script, descend=case["descend"], prefed=min(case["prefed"], len(segs)), eof_with_last=case["eof_with_last"],
